@@ -9,13 +9,41 @@ use crate::core::{LintError, LintErrorPos, LintResult};
 #[derive(Default)]
 pub struct LabelLinter {
     labels: HashMap<LabelOwner, HashSet<CaseInsensitiveString>>,
+    label_blocks: HashMap<CaseInsensitiveString, Vec<usize>>,
     current_label_owner: LabelOwner,
+    current_blocks: BlockPath,
 }
 
 #[derive(Default)]
 struct LabelCollector {
     labels: HashMap<LabelOwner, HashSet<CaseInsensitiveString>>,
+    label_blocks: HashMap<CaseInsensitiveString, Vec<usize>>,
     current_label_owner: LabelOwner,
+    current_blocks: BlockPath,
+}
+
+/// The FOR loops and SELECT CASE statements around the statement being visited,
+/// outermost first. A statement is identified by its ordinal in the order of the visit,
+/// which is the same for the collector and the linter.
+///
+/// The interpreter keeps the limit and step of a FOR loop and the selector of a
+/// SELECT CASE where the statement's header puts them, so the body cannot be entered
+/// by a jump from outside the statement.
+#[derive(Default)]
+struct BlockPath {
+    path: Vec<usize>,
+    count: usize,
+}
+
+impl BlockPath {
+    fn enter(&mut self) {
+        self.count += 1;
+        self.path.push(self.count);
+    }
+
+    fn exit(&mut self) {
+        self.path.pop();
+    }
 }
 
 #[derive(Clone, Debug, Default, Eq, Hash, PartialEq)]
@@ -56,6 +84,30 @@ impl LabelLinter {
     ) -> Result<(), LintErrorPos> {
         self.ensure_label_is_defined(label, &self.current_label_owner, pos)
     }
+
+    /// The FOR loops and SELECT CASE statements around the label
+    /// must also be around the jump that is being visited.
+    fn ensure_label_blocks_enclose_jump(
+        &self,
+        label: &CaseInsensitiveString,
+        pos: Position,
+    ) -> Result<(), LintErrorPos> {
+        self.ensure_label_blocks_are_within(label, &self.current_blocks.path, pos)
+    }
+
+    fn ensure_label_blocks_are_within(
+        &self,
+        label: &CaseInsensitiveString,
+        blocks: &[usize],
+        pos: Position,
+    ) -> Result<(), LintErrorPos> {
+        match self.label_blocks.get(label) {
+            Some(label_blocks) if !blocks.starts_with(label_blocks) => {
+                Err(LintError::LabelNotDefined.at_pos(pos))
+            }
+            _ => Ok(()),
+        }
+    }
 }
 
 impl PostConversionLinter for LabelLinter {
@@ -63,6 +115,7 @@ impl PostConversionLinter for LabelLinter {
         let mut collector = LabelCollector::default();
         collector.visit_program(p)?;
         self.labels = collector.labels;
+        self.label_blocks = collector.label_blocks;
         self.visit_global_statements(p)
     }
 
@@ -77,13 +130,25 @@ impl PostConversionLinter for LabelLinter {
         self.on_sub(s)
     }
 
+    fn visit_for_loop(&mut self, f: &ForLoop) -> Result<(), LintErrorPos> {
+        self.on_for_loop(f)
+    }
+
+    fn visit_select_case(&mut self, s: &SelectCase) -> Result<(), LintErrorPos> {
+        self.on_select_case(s)
+    }
+
     fn visit_on_error(
         &mut self,
         on_error_option: &OnErrorOption,
         pos: Position,
     ) -> Result<(), LintErrorPos> {
         match on_error_option {
-            OnErrorOption::Label(label) => self.ensure_is_global_label(label, pos),
+            OnErrorOption::Label(label) => {
+                self.ensure_is_global_label(label, pos)?;
+                // the jump happens at the failing statement, which can be anywhere
+                self.ensure_label_blocks_are_within(label, &[], pos)
+            }
             _ => Ok(()),
         }
     }
@@ -93,7 +158,8 @@ impl PostConversionLinter for LabelLinter {
         label: &CaseInsensitiveString,
         pos: Position,
     ) -> Result<(), LintErrorPos> {
-        self.ensure_is_current_label(label, pos)
+        self.ensure_is_current_label(label, pos)?;
+        self.ensure_label_blocks_enclose_jump(label, pos)
     }
 
     fn visit_go_sub(
@@ -101,7 +167,8 @@ impl PostConversionLinter for LabelLinter {
         label: &CaseInsensitiveString,
         pos: Position,
     ) -> Result<(), LintErrorPos> {
-        self.ensure_is_current_label(label, pos)
+        self.ensure_is_current_label(label, pos)?;
+        self.ensure_label_blocks_enclose_jump(label, pos)
     }
 
     fn visit_resume(
@@ -140,6 +207,14 @@ impl PostConversionLinter for LabelCollector {
         self.on_sub(s)
     }
 
+    fn visit_for_loop(&mut self, f: &ForLoop) -> Result<(), LintErrorPos> {
+        self.on_for_loop(f)
+    }
+
+    fn visit_select_case(&mut self, s: &SelectCase) -> Result<(), LintErrorPos> {
+        self.on_select_case(s)
+    }
+
     fn visit_label(
         &mut self,
         label: &CaseInsensitiveString,
@@ -154,6 +229,8 @@ impl PostConversionLinter for LabelCollector {
                 .entry(self.current_label_owner.clone())
                 .or_default()
                 .insert(label.clone());
+            self.label_blocks
+                .insert(label.clone(), self.current_blocks.path.clone());
             Ok(())
         }
     }
@@ -179,16 +256,45 @@ trait LabelOwnerHolder: PostConversionLinter {
         self.set_label_owner(LabelOwner::Global);
         Ok(())
     }
+
+    fn current_blocks(&mut self) -> &mut BlockPath;
+
+    fn on_for_loop(&mut self, f: &ForLoop) -> Result<(), LintErrorPos> {
+        self.current_blocks().enter();
+        self.visit_statements(&f.statements)?;
+        self.current_blocks().exit();
+        Ok(())
+    }
+
+    fn on_select_case(&mut self, s: &SelectCase) -> Result<(), LintErrorPos> {
+        self.current_blocks().enter();
+        for case_block in &s.case_blocks {
+            self.visit_statements(case_block.statements())?;
+        }
+        if let Some(else_block) = &s.else_block {
+            self.visit_statements(else_block)?;
+        }
+        self.current_blocks().exit();
+        Ok(())
+    }
 }
 
 impl LabelOwnerHolder for LabelLinter {
     fn set_label_owner(&mut self, label_owner: LabelOwner) {
         self.current_label_owner = label_owner;
     }
+
+    fn current_blocks(&mut self) -> &mut BlockPath {
+        &mut self.current_blocks
+    }
 }
 
 impl LabelOwnerHolder for LabelCollector {
     fn set_label_owner(&mut self, label_owner: LabelOwner) {
         self.current_label_owner = label_owner;
+    }
+
+    fn current_blocks(&mut self) -> &mut BlockPath {
+        &mut self.current_blocks
     }
 }
